@@ -1525,7 +1525,8 @@ impl World for OpsWorld {
                 s.kind,
                 s.phase,
                 s.op.is_some(),
-                s.recs.iter().map(|r| format!("{}:{}", r.res.signum(), r.flags & 0xffff)).collect::<Vec<_>>().join(","),
+                // (Errors by errno: an interruption or cancellation restarts the operation, any other error ends it.)
+                s.recs.iter().map(|r| format!("{}:{}", if r.res < 0 { r.res } else { r.res.signum() }, r.flags & 0xffff)).collect::<Vec<_>>().join(","),
                 s.taken,
                 p,
                 woken,
